@@ -381,6 +381,8 @@ def attribute(ops: list[dict], verdict: dict) -> str:
         # at or after the shut-down and re-opening of an instance on a db_path: what the new sessions report is C03's (set at
         # connect), everything else - what is found on disk, and whether it can be used - is C18's
         return "C03" if diff == {"ctx"} else "C18"
+    if "vis" in diff and any(o.get("k") == "emfail" for o in ops[:max(at - 1, 0)]):
+        return "C13"            # after a failed executemany: a transaction opened (or closed) behind the caller's back
     if k == "script":
         return "C16"
     if k == "nop":
